@@ -88,6 +88,8 @@ def coerce_dtype(v, dtype):
 
 def store_write(st, arr, valfn, condfn=None):
     """Write valfn(view idx) into the positions of view `arr` (where condfn holds)."""
+    if arr.token in getattr(st, 'readonly', ()):
+        raise SymRaise('ValueError', 'assignment destination is read-only')
     d = st.store[arr.token]
     old = d.fn
     inv = arr.inv
